@@ -30,7 +30,7 @@ def check(run):
         if not model.overlaps(s):
             specs.append(s)
     r = gen.rng_for(run.seed, "c16")
-    for i in range(900 if thorough else 170):
+    for i in range(3000 if thorough else 500):
         specs.append(strgen.build(r, "R%d" % i, ["EnumString"], fieldless=True, naming_bias=0.75, max_n=8,
                                   capture_types=["String", "BoxStr"]))
     units = []
